@@ -524,3 +524,51 @@ mut("C07", "new_unclassified_send_site", "connection greeting sent to every conn
 fn greet(server: &mut RepliconServer, client: Entity) {
     server.send(client, crate::shared::backend::channels::ServerChannel::Updates, Vec::new());
 }"""))
+
+# ------------------------------------------------------------------ C08
+mut("C08", "insertion_ignores_hidden", "hidden check dropped from the component loop (insertions and mutations of hidden entities are written)", ["add_inserted_component", "add_component", "add_entity", "add_changed_entity"],
+    ("src/server.rs", """                    if updates.entity_visibility() == Visibility::Hidden {
+                        continue;
+                    }
+
+                    if let Some(tick) = client_ticks""", """                    if let Some(tick) = client_ticks"""))
+mut("C08", "hidden_test_inverted_in_merge_loop", "the post-component loop skips visible entities instead of hidden ones", ["take_added_entity", "set_mutation_tick"],
+    ("src/server.rs", """                let visibility = updates.entity_visibility();
+                if visibility == Visibility::Hidden {
+                    continue;
+                }""", """                let visibility = updates.entity_visibility();
+                if visibility == Visibility::Visible {
+                    continue;
+                }"""))
+mut("C08", "removals_ignore_visibility", "component removals of hidden entities are sent", ["collect_removals/add_removals"],
+    ("src/server.rs", "            if visibility.is_none_or(|v| v.is_visible(entity)) {\n                trace!(\n                    \"writing removals", "            if visibility.is_none_or(|v| v.is_visible(entity)) || ids_len > 0 {\n                trace!(\n                    \"writing removals"))
+mut("C08", "despawn_ignores_visibility", "despawns of hidden entities are sent", ["collect_despawns/add_despawn"],
+    ("src/server.rs", """                if visibility.is_visible(entity) {
+                    trace!("writing despawn for `{entity}` for client `{client_entity}`");
+                    message.add_despawn(entity_range.clone());
+                }
+                visibility.remove_despawned(entity);""", """                trace!("writing despawn for `{entity}` for client `{client_entity}`");
+                message.add_despawn(entity_range.clone());
+                visibility.remove_despawned(entity);"""))
+mut("C08", "default_state_hidden_checked_elsewhere", "state of the archetype's first entity is used for all entities", ["state-of-iterated-entity"],
+    ("src/server.rs", ".map(|v| v.state(entity.id()))", ".map(|v| v.state(archetype.entities()[0].id()))"))
+mut("C08", "no_visibility_component_means_hidden", "clients without a visibility component see nothing... or rather default flipped", ["default-visibility"],
+    ("src/server.rs", ".unwrap_or(Visibility::Visible);", ".unwrap_or(Visibility::Gained);"))
+mut("C08", "is_visible_true_for_hidden_gained_false", "is_visible treats Gained as hidden", ["is_visible/false-exactly-for-Hidden"],
+    ("src/server/client_visibility.rs", """            Visibility::Hidden => false,
+            Visibility::Gained | Visibility::Visible => true,""", """            Visibility::Hidden | Visibility::Gained => false,
+            Visibility::Visible => true,"""))
+mut("C08", "whitelist_absent_is_visible", "whitelist treats unknown entities as visible", ["state/Whitelist-None"],
+    ("src/server/client_visibility.rs", """                Some(WhitelistInfo::Visible) => Visibility::Visible,
+                None => Visibility::Hidden,""", """                Some(WhitelistInfo::Visible) => Visibility::Visible,
+                None => Visibility::Visible,"""))
+mut("C08", "blacklist_hidden_is_gained", "blacklisted entities are classified as just gained (full data sent)", ["state/Blacklist-Some-Hidden"],
+    ("src/server/client_visibility.rs", "                Some(BlacklistInfo::Hidden) => Visibility::Hidden,", "                Some(BlacklistInfo::Hidden) => Visibility::Gained,"))
+mut("C08", "commit_only_when_updates_sent", "visibility is committed only when an update message was sent", ["commit-unconditional"],
+    ("src/server.rs", """        if let Some(mut visibility) = visibility {
+            visibility.update();
+        }""", """        if let (Some(mut visibility), false) = (visibility, updates.is_empty()) {
+            visibility.update();
+        }"""))
+mut("C08", "public_visibility_fields", "visibility list is publicly writable", ["ClientVisibility.added/private"],
+    ("src/server/client_visibility.rs", "pub struct ClientVisibility {\n    /// List of entities", "pub struct ClientVisibility {\n    /// List of entities") if False else ("src/server/client_visibility.rs", "    added: EntityHashSet,", "    pub added: EntityHashSet,"))
